@@ -176,8 +176,10 @@ func c15Fixed() []verifh.Section {
 }
 
 func c15Gen(r *verifh.Rng) []verifh.Section {
+	// consecutive seeds of verifh.NewRng are one draw apart on the same stream: fork for independent streams
+	r = r.Fork()
 	secs := c15Fixed()
-	nsec := verifh.Scale(80, 500)
+	nsec := verifh.Scale(80, 1500)
 	for i := 0; i < nsec; i++ {
 		cfg := ""
 		switch x := r.Intn(10); {
@@ -216,7 +218,7 @@ func c15Gen(r *verifh.Rng) []verifh.Section {
 			}
 		}
 		var ops []string
-		nops := r.Range(3, verifh.Scale(16, 30))
+		nops := r.Range(3, verifh.Scale(16, 36))
 		var present []string
 		for j := 0; j < nops; j++ {
 			n := pop[r.Intn(len(pop))]
